@@ -30,6 +30,7 @@ type Opt struct {
 	DefaultMask string
 	Base        string
 	Unquote     string
+	NilFunc     bool // a callback option whose function the program never assigns
 	NoIni       string
 	IniName     string
 	Extra       string // raw tag text appended verbatim
@@ -490,7 +491,9 @@ func (b *Built) bindOpts(v reflect.Value, opts []*Opt, where string) {
 	for _, o := range opts {
 		f := v.FieldByName(o.Field)
 		b.Vals[o] = f
-		if o.Type.IsFunc() {
+		if o.Type.IsFunc() && o.NilFunc {
+			b.Calls[o] = &[]string{}
+		} else if o.Type.IsFunc() {
 			log := &[]string{}
 			b.Calls[o] = log
 			switch o.Type {
